@@ -8,7 +8,7 @@ TRUSTED = [
 ]
 ASSUME = [
     "atomicity of a critical section = Go mutex semantics; the nested per-entry lock inside the box lock is folded into the enclosing step (the entry is reachable only through the box tables, which the box lock protects)",
-    "the epoch clock does not tick during the runs (no garbage collection step); limits are not exceeded in the scenarios",
+    "in the Lean model of the interleaved box the epoch clock does not tick (no garbage collection step) and the scenarios stay within the limits; on the real code the controlled scheduler also runs three scenarios in which the clock ticks inside a running collection (gc-window/*) and two histories of six successive topics (sequential-topics*), judged by the direct monitors only",
     "per-sender order is NOT claimed for every interleaving: known finding KF-C14-order",
 ]
 
